@@ -20,8 +20,10 @@ Filter entry keys (all optional except name):
     start_at:  virtual ms at which the filter process is started (default 0)
 """
 
+import os
 import sys
 import threading
+import time as _real_time
 import types
 
 from . import sched, simzmq
@@ -515,6 +517,15 @@ def execute(scn, prefix=(), base_order='fifo', keep_world=False):
     zq.ZMQ_WARN_OLDER   = scn.get('warn_older', True)       # logging switches of zeromq.py (module constants read from the environment)
     zq.ZMQ_WARN_NEWER   = scn.get('warn_newer', True)
 
+    import openfilter.filter_runtime.filter as flt
+
+    flt.LOG_UTC = scn.get('log_utc', False)                 # module constant of filter.py read from the environment
+    tz_before   = os.environ.get('TZ')
+
+    if (tz := scn.get('tz')) is not None:                   # local time zone of the process (POSIX TZ string, needs no tz database)
+        os.environ['TZ'] = tz
+        _real_time.tzset()
+
     for key, ms in (scn.get('join_delay') or {}).items():
         sub, pub = key.split('<')
         w.net.join_delay[(sub, addr_of(pub))] = ms
@@ -631,6 +642,14 @@ def execute(scn, prefix=(), base_order='fifo', keep_world=False):
         reason = w.run()
     finally:
         simzmq._current_world = None
+
+        if scn.get('tz') is not None:
+            if tz_before is None:
+                os.environ.pop('TZ', None)
+            else:
+                os.environ['TZ'] = tz_before
+
+            _real_time.tzset()
 
     r = Result()
     r.reason   = reason
